@@ -433,6 +433,62 @@ fn gen_call(m: &str, a: &[Value], st: Option<&Value>) -> Value {
             CodeGenerator::random_float_vector(a[0].as_i64().unwrap() as i32, j2f(&a[1]), j2f(&a[2])),
             |v| json!(v.values.iter().map(|f| f2j(*f)).collect::<Vec<_>>()),
         ),
+        // many draws at once: which positions were ever TRUE, and the range of TRUE counts
+        "random_bool_vector_cover" => {
+            let (n, sp, draws) = (a[0].as_i64().unwrap() as i32, j2f(&a[1]), us(&a[2]));
+            let mut ever = vec![false; n.max(0) as usize];
+            let (mut cmin, mut cmax, mut nones) = (i64::MAX, -1i64, 0);
+            for _ in 0..draws {
+                match CodeGenerator::random_bool_vector(n, sp) {
+                    Some(v) => {
+                        let c = v.values.iter().filter(|b| **b).count() as i64;
+                        cmin = cmin.min(c);
+                        cmax = cmax.max(c);
+                        for (i, b) in v.values.iter().enumerate() {
+                            if *b && i < ever.len() {
+                                ever[i] = true;
+                            }
+                        }
+                    }
+                    None => nones += 1,
+                }
+            }
+            some(json!({"ever": ever, "cmin": if cmax < 0 { 0 } else { cmin }, "cmax": cmax.max(0), "nones": nones}))
+        }
+        "random_int_vector_stats" => {
+            let (n, lo, hi, draws) = (a[0].as_i64().unwrap() as i32, a[1].as_i64().unwrap() as i32, a[2].as_i64().unwrap() as i32, us(&a[3]));
+            let (mut mn, mut mx, mut cnt, mut bad) = (i64::MAX, i64::MIN, 0i64, 0i64);
+            for _ in 0..draws {
+                if let Some(v) = CodeGenerator::random_int_vector(n, lo, hi) {
+                    if v.values.len() != n as usize {
+                        bad += 1;
+                    }
+                    for x in v.values {
+                        mn = mn.min(x as i64);
+                        mx = mx.max(x as i64);
+                        cnt += 1;
+                    }
+                }
+            }
+            some(json!({"min": if cnt == 0 { 0 } else { mn }, "max": if cnt == 0 { 0 } else { mx }, "count": clamp_i32(cnt as u128), "badlen": bad}))
+        }
+        "random_integer_stats" => {
+            let draws = us(&a[2]);
+            let (mut mn, mut mx, mut cnt) = (i64::MAX, i64::MIN, 0i64);
+            for _ in 0..draws {
+                if let Some(x) = CodeGenerator::random_integer(&state) {
+                    mn = mn.min(x as i64);
+                    mx = mx.max(x as i64);
+                    cnt += 1;
+                }
+            }
+            some(json!({"min": if cnt == 0 { 0 } else { mn }, "max": if cnt == 0 { 0 } else { mx }, "count": clamp_i32(cnt as u128)}))
+        }
+        "random_float_many" => {
+            let draws = us(&a[2]);
+            let v: Vec<Value> = (0..draws).filter_map(|_| CodeGenerator::random_float(&state)).map(f2j).collect();
+            some(json!(v))
+        }
         "random_float" => opt(CodeGenerator::random_float(&state), f2j),
         "random_integer" => opt(CodeGenerator::random_integer(&state), |x| json!(x)),
         "existing_random_name" => some(json!(CodeGenerator::existing_random_name(&state))),
